@@ -10,13 +10,19 @@ import (
 )
 
 // vpHostList: n entries, each prefix ++ [placeholder] ++ suffix with symbolic short affixes.
-func vpHostList(n, affix int) []string {
+func vpHostList(n, affix int) []string { return vpHostList2(n, affix, false) }
+
+// vpHostList2: with twice, an entry may carry the placeholder two times in a row.
+func vpHostList2(n, affix int, twice bool) []string {
 	var hs []string
 	for i := 0; i < n; i++ {
 		is := vpItoa(i)
 		h := vpString("pre"+is, affix)
 		if vpBool("ph" + is) {
 			h += vpPlaceholder
+			if twice && vpBool("ph-twice"+is) {
+				h += vpPlaceholder
+			}
 		}
 		h += vpString("suf"+is, affix)
 		hs = append(hs, h)
